@@ -201,6 +201,7 @@ type vWorld struct {
 	hotSlot  common.Hash
 	hotHist  []common.Hash
 	noIRoot  bool // never call IntermediateRoot inside the block (C15)
+	salt     byte // distinguishes fresh code blobs of different blocks / forks
 
 	// coverage facts
 	mixedBoundaries  int // bit 1: Finalise-only boundary, bit 2: IntermediateRoot boundary after a hot-slot write
@@ -628,6 +629,10 @@ func vActSetCode(w *vWorld) {
 	code := vCodes[rapid.IntRange(0, len(vCodes)-1).Draw(w.rt, "code")]
 	if w.strict && w.nonceOf(a) == 0 {
 		code = nil // code only lives on accounts with a nonce (EIP-161 era)
+	}
+	if len(code) > 0 && rapid.Bool().Draw(w.rt, "freshCode") {
+		// a blob no earlier block or sibling state can have stored already
+		code = append(append([]byte{}, code...), 0xfe, w.salt, byte(w.txN), byte(len(w.trace)), byte(len(w.trace)>>8))
 	}
 	// Callers (EVM create after the collision check, EIP-7702 after validation) have
 	// always resolved the current code before replacing it.
